@@ -235,9 +235,23 @@ func checkC01(w *World) {
 				}
 			}
 		})
+		// `next := *e` followed by single-field overrides: every field starts as the receiver's
+		wholeInit := false
+		allInstrs(r.CopyCtx, func(in ssa.Instruction) {
+			if s, ok := in.(*ssa.Store); ok {
+				if _, isAlloc := s.Addr.(*ssa.Alloc); isAlloc {
+					if u, ok := s.Val.(*ssa.UnOp); ok && u.X == recv {
+						wholeInit = true
+					}
+				}
+			}
+		})
 		for i := 0; i < st.NumFields(); i++ {
 			name := st.Field(i).Name()
 			got := src[i]
+			if got == "" && wholeInit {
+				got = fmt.Sprintf("recv.%d", i)
+			}
 			ok := whole || got == fmt.Sprintf("recv.%d", i)
 			if !ok && f.BuiltinVar != nil && got == "global "+f.BuiltinVar.Name() {
 				ok = true
